@@ -298,6 +298,26 @@ def scoped_functions(repo: Repo, prop: str) -> List[Tuple[FuncInfo, Optional[Set
   return out
 
 
+_EXT_SIG: Dict[str, Optional[List[str]]] = {}
+
+
+def _ext_positional(path: str) -> Optional[List[str]]:
+  """Positional parameter names of an installed third-party callable (None if unknown)."""
+  if path not in _EXT_SIG:
+    names = None
+    try:
+      import inspect
+      from fjsa.rules import api
+      obj, missing = api.resolve_path(path)
+      if missing is None and callable(obj):
+        sig = inspect.signature(obj)
+        names = [n for n, prm in sig.parameters.items() if prm.kind in (prm.POSITIONAL_ONLY, prm.POSITIONAL_OR_KEYWORD)]
+    except Exception:  # pylint: disable=broad-except
+      names = None
+    _EXT_SIG[path] = names
+  return _EXT_SIG[path]
+
+
 def check_forwarding(check, funcs, rule: str = 'R-FORWARD'):
   """funcs: iterable of FuncInfo or (FuncInfo, None | set of parameter names that matter)."""
   repo = check.repo
@@ -351,6 +371,20 @@ def check_forwarding(check, funcs, rule: str = 'R-FORWARD'):
           check.ob(rule + '.swapped', fi, txt(c)[:90], False,
                    f'`{a.id}` is passed where {g.qualname} expects `{p}`, although {g.qualname} has a parameter called `{a.id}`: '
                    'the two arguments are in each other\'s place', node=a)
+    # the same for positional arguments of third-party callees whose signature the installed package tells us (optax, jax, haiku)
+    for _, c in ff.calls():
+      pth = ff.ext(c.func)
+      if not pth or pth.split('.')[0] not in ('optax', 'haiku', 'jax') or not c.args or any(isinstance(a, ast.Starred) for a in c.args):
+        continue
+      names = _ext_positional(pth)
+      if not names:
+        continue
+      allp = set(names)
+      for p, a in zip(names, c.args):
+        if isinstance(a, ast.Name) and a.id != p and a.id in allp and (rel(p) or rel(a.id)):
+          check.ob(rule + '.swapped', fi, txt(c)[:90], False,
+                   f'`{a.id}` is passed positionally where {pth} expects `{p}` (signature of the installed package), although {pth} has a '
+                   f'parameter called `{a.id}`', node=a)
     if only is None:
       for c, how in filtered_kwargs(ff):
         check.ob(rule + '.kwargs', fi, txt(c)[:90], False,
